@@ -57,7 +57,7 @@ var propertyCanaries = map[string][]string{
 	"C07": {"ARGS.arms", "ARGS.strict", "WORKSIZE.querylen", "ARGS.order", "ARGS.lencheck", "ARGS.query", "MAT.order", "ASM.window", "ASM.tail", "STRIDE.len"},
 	"C08": {"PARAMUSE.read", "ASM.window", "ASM.tail", "ASM.units", "STRIDE.extent", "SIB.guards"},
 	"C09": {"GLOBAL.write", "GOPROTO.capture", "GOPROTO.lockpair", "GOPROTO.sibling", "POOL.uaf"},
-	"C12": {"GRAPHINV.converse", "GRAPHINV.uid", "GRAPHINV.iter", "TWIN.sibstate"},
+	"C12": {"GRAPHINV.panicorder", "GRAPHINV.absent", "GRAPHINV.iterreset", "GRAPHINV.converse", "GRAPHINV.uid", "GRAPHINV.iter", "TWIN.sibstate"},
 	"C16": {"DECODE.mul", "DECODE.selfcmp", "DECODE.clone", "DECODE.fields"},
 	"C17": {"GLOBAL.write", "RESET.fields", "WINDOW.pointwise"},
 	"C18": {"CONST.stencil", "GOPROTO.sibling"},
@@ -74,6 +74,9 @@ func init() {
 		{"ARGS.strict", "blas/gonum/dgemm.go", "len(c) < ldc*(m-1)+n", "len(c) <= ldc*(m-1)+n", func() *core.Result { return worksize.RunArms(def, core.Pkgs("./blas/gonum")) }},
 		{"ARGS.strict", "lapack/gonum/dgetrf.go", "len(a) < (m-1)*lda+n", "len(a) <= (m-1)*lda+n", func() *core.Result { return worksize.RunArms(def, core.Pkgs("./lapack/gonum")) }},
 		{"GLOBAL.write", "mat/pool.go", "\tw := *poolFloat64s[poolFor(uint(l))].Get().(*[]float64)\n\tw = w[:l]", "\tw := *poolFloat64s[poolFor(uint(l))].Get().(*[]float64)\n\tw = w[:l]\n\tpoolFloat64s[0].New = nil", func() *core.Result { return globalx.Run(def, core.Pkgs("./mat"), globalx.Options{}) }},
+		{"GRAPHINV.panicorder", "graph/simple/directed.go", "g.nodes[n.ID()] = n\n\tg.nodeIDs.Use(n.ID())", "g.nodes[n.ID()] = n\n\tif n.ID() < 0 {\n\t\tpanic(\"simple: negative ID\")\n\t}\n\tg.nodeIDs.Use(n.ID())", func() *core.Result { return graphinv.RunOrder(def) }},
+		{"GRAPHINV.absent", "graph/simple/dense_directed_matrix.go", "!isSame(g.mat.At(i, int(id)), g.absent)", "g.mat.At(i, int(id)) != g.absent", func() *core.Result { return graphinv.RunOrder(def) }},
+		{"GRAPHINV.iterreset", "graph/multi/multi.go", "\te.WeightedLines.Reset()\n\treturn w", "\treturn w", func() *core.Result { return graphinv.RunOrder(def) }},
 		{"WORKSIZE.min", "lapack/gonum/dgels.go", "wsize := max(1, mn+max(mn, nrhs)*nb)", "wsize := max(1, mn+mn*nb)", wsz},
 		{"WORKSIZE.querylen", "lapack/gonum/dormqr.go", "case lwork < max(1, nw) && lwork != -1:\n\t\tpanic(badLWork)", "case lwork < max(1, nw) && lwork != -1:\n\t\tpanic(badLWork)\n\tcase len(tau) != k:\n\t\tpanic(badLenTau)", wsz},
 		{"WORKSIZE.min", "lapack/gonum/dsyev.go", "lworkopt := max(1, (nb+2)*n)", "lworkopt := max(1, (nb+1)*n)", wsz},
